@@ -31,6 +31,58 @@ STDLIB_CTORS = {"array.array": _array.array, "struct.Struct": _struct.Struct, "S
                 "wave.open": _wave.Wave_read}
 
 
+def _manual_twos_complement(helper, fmt, bits):
+    """Recognise  def h(unpack): def u(v): value = unpack(v + PAD)[0]; return value - M if value OP T else value
+    Returns (good, description, why) or None when the shape is different."""
+    inner = [f for f in helper.body if isinstance(f, FuncTypes)]
+    if len(inner) != 1 or len(helper.args.args) != 1:
+        return None
+    up = helper.args.args[0].arg
+    u = inner[0]
+    body = docstring_free(u.body)
+    if len(body) != 2 or not isinstance(body[0], ast.Assign) or not isinstance(body[1], ast.Return):
+        return None
+    vv = u.args.args[0].arg
+    a = body[0]
+    val = unparse(a.targets[0])
+    e = a.value
+    if not (isinstance(e, ast.Subscript) and unparse(e.slice) == "0" and isinstance(e.value, ast.Call)
+            and unparse(e.value.func) == up):
+        return None
+    arg = e.value.args[0]
+    pad_hi = pad_lo = b""
+    if isinstance(arg, ast.BinOp) and isinstance(arg.op, ast.Add):
+        if unparse(arg.left) == vv and isinstance(arg.right, ast.Constant):
+            pad_hi = arg.right.value
+        elif unparse(arg.right) == vv and isinstance(arg.left, ast.Constant):
+            pad_lo = arg.left.value
+        else:
+            return None
+    elif unparse(arg) != vv:
+        return None
+    r = body[1].value
+    if not (isinstance(r, ast.IfExp) and unparse(r.orelse) == val and isinstance(r.body, ast.BinOp)
+            and isinstance(r.body.op, ast.Sub) and unparse(r.body.left) == val and isinstance(r.test, ast.Compare)
+            and len(r.test.ops) == 1 and unparse(r.test.left) == val):
+        return None
+    try:
+        M = ast.literal_eval(r.body.right)
+        T = ast.literal_eval(r.test.comparators[0])
+    except Exception:
+        return None
+    op = type(r.test.ops[0])
+    first_negative = T if op is ast.GtE else T + 1 if op is ast.Gt else None
+    what = "Struct(%r) on v + %r: value - %#x if value %s %#x else value" % (
+        fmt, pad_hi or pad_lo, M, {ast.GtE: ">=", ast.Gt: ">"}.get(op, "?"), T)
+    unsigned_le = fmt.startswith("<") and fmt[-1:] in ("I", "L", "H", "B", "Q")
+    size_ok = _struct.calcsize(fmt) == bits // 8 + len(pad_hi) + len(pad_lo)
+    good = unsigned_le and size_ok and pad_lo == b"" and set(pad_hi) <= {0} and M == 1 << bits \
+        and first_negative == 1 << (bits - 1)
+    why = ("manual sign extension must subtract 2**%d exactly for values >= 2**%d (the most negative sample %d included), "
+           "on a zero-extended little-endian unsigned read of %d bytes" % (bits, bits - 1, -(1 << (bits - 1)), bits // 8))
+    return good, what, why
+
+
 def _e10(chk, repo, mname, fn, W):
     """Attributes called/read on locals typed by stdlib constructors."""
     mod = repo.mod(mname)
@@ -205,6 +257,17 @@ def run(chk, repo):
         ok = isinstance(v, ast.Call) and isinstance(v.func, ast.Lambda) and isinstance(v.func.body, ast.Lambda) \
             and len(v.args) == 1 and isinstance(v.args[0], ast.Attribute) and v.args[0].attr == "unpack" \
             and isinstance(v.args[0].value, ast.Call) and canon_call(wmod, v.args[0].value) in ("struct.Struct",)
+        if not ok and isinstance(v, ast.Call) and isinstance(v.func, ast.Name) and len(v.args) == 1 \
+                and isinstance(v.args[0], ast.Attribute) and v.args[0].attr == "unpack" \
+                and isinstance(v.args[0].value, ast.Call) and canon_call(wmod, v.args[0].value) in ("struct.Struct",):
+            # helper idiom: unsigned unpack + manual two's complement
+            helper = repo.find(LW, v.func.id, required=False)
+            res = _manual_twos_complement(helper, ast.literal_eval(v.args[0].value.args[0]), bits) if helper is not None else None
+            if res is None:
+                raise AnalysisError("_unpackers[%s]: helper %s not recognised" % (bits, v.func.id))
+            good, what, why = res
+            chk.decide(good, "C18.unpackers", Wk, what, why=why, node=v)
+            continue
         if not ok:
             raise AnalysisError("_unpackers[%s]: shape not recognised: %s" % (bits, short(v)))
         fmt = ast.literal_eval(v.args[0].value.args[0])
